@@ -101,6 +101,7 @@ def load_dump_file(ctx, clear, with_state):
     log = so.log()
     pidx = d['prev'][1]
     ctx.prove(so.get('raftLastApplied') == pidx + 1, 'C09+C01+C06:O9.4.applied-is-dump-position')
+    ctx.prove(And(so.get('raftLastApplied') >= to_z3(log.first), so.get('raftLastApplied') <= log.last_idx()), 'C09+C01+C06:I2.applied-within-journal-after-a-dump-load')
     # the journal holds the dump's two entries at its head
     ctx.prove(And(to_z3(log.n) >= 2, Eq(log.first, pidx), log.termf(z3.IntVal(0)) == d['prev'][2], log.termf(z3.IntVal(1)) == d['last'][2],
                   log.cmdf(z3.IntVal(0)) == d['prev'][0].id, log.cmdf(z3.IntVal(1)) == d['last'][0].id), 'C09+C01+C06:O9.4.journal-starts-with-dump-entries')
@@ -197,7 +198,7 @@ def _mut_drop_lower(fn):
       doc='O9.1: the tuple handed to serialize is (attributes outside __properies, log[applied], log[applied-1], voters + self) with id '
           'log[applied-1].idx, only when idle and two entries end at applied; O6.4: the journal is trimmed only on a tick where '
           'checkSerializing reported SUCCESS, and exactly up to the reported id',
-      assumptions=['logCompactionSplit == False in this unit', 'no consumers in this unit', 'conf.serializer is None'],
+      assumptions=['logCompactionSplit == False in this unit', 'no consumers in this unit', 'conf.serializer is None', "A-I2: the applied position lies inside the journal (first <= lastApplied <= last): established by the start-up path and by a dump load, kept by compaction and by the apply loop (clauses I2.*); that a follower never truncates an applied entry is Raft's state-machine safety (A-RAFT), not provable per call"],
       canaries=[('swap-entries', lambda mod: mutate_function(mod, COMPACT, _mut_swap_entries), ['O9.1.snapshot-point-is-last-applied-and-predecessor']),
                 ('trim-always', lambda mod: mutate_function(mod, COMPACT, _mut_trim_always), ['O6.4.journal-trimmed-only-after-success'])])
 def try_log_compaction(ctx):
@@ -218,8 +219,10 @@ def try_log_compaction(ctx):
     state, sid = FreshInt('serializeState'), FreshInt('serializeID')
     ctx.assume(And(state >= 0, state <= 3))
     ctx.track('serializeState', state)
-    # a reported id is the first entry index of an earlier snapshot point: inside the journal (O9.1 of the earlier call)
-    ctx.assume(Implies(state == 2, And(sid >= to_z3(log0.first), sid + 1 <= log0.last_idx())))
+    # a reported id is the first entry index of an earlier snapshot point (O9.1 of the earlier call): an applied position, hence not beyond the
+    # journal's end - but the journal's head may have moved past it meanwhile (a newer snapshot installed by the leader replaces the journal)
+    # it is the predecessor of the position that was applied when the dump began (O9.1.id-is-predecessor-index), and lastApplied never decreases (R11)
+    ctx.assume(Implies(state == 2, And(sid >= 1, sid + 1 <= log0.last_idx(), sid + 1 <= a0)))
     calls = []
     reg = dict(SUMMARIES)
     reg['Serializer.checkSerializing'] = lambda I, s, a, k: (state, Opt(state == 0, sid))
@@ -233,10 +236,13 @@ def try_log_compaction(ctx):
     trimmed = [op for op in ctx.glist('log_ops') if op[0] == 'delTo']
     ctx.prove(Implies(state != 2, len(trimmed) == 0) if trimmed else True, 'C06+C09:O6.4.journal-trimmed-only-after-success')
     if ctx.decide(state == 2, 'success'):
-        ctx.prove(And(Eq(log1.first, sid), log1.last_idx() == log0.last_idx()), 'C06+C09:O6.4.trim-exactly-to-the-snapshot-point')
+        behind = sid < to_z3(log0.first)
+        ctx.prove(Implies(Not(behind), And(Eq(log1.first, sid), log1.last_idx() == log0.last_idx())), 'C06+C09:O6.4.trim-exactly-to-the-snapshot-point')
+        # the snapshot point already lies behind the journal's head: nothing may be trimmed (everything in the journal is newer than the dump)
+        ctx.prove(Implies(behind, And(Eq(log1.first, log0.first), Eq(log1.n, log0.n))), 'C06+C09+C01:O6.4.snapshot-point-behind-the-journal-trims-nothing')
         j = FreshInt('j')
-        ctx.prove(Implies(And(j >= sid, j <= log0.last_idx()), And(log1.term_at(j) == log0.term_at(j), log1.cmd_at(j) == log0.cmd_at(j))),
-                  'C06+C09:O6.4.kept-suffix-unchanged')
+        ctx.prove(Implies(And(j >= sid, j >= to_z3(log0.first), j <= log0.last_idx()), And(log1.has(j), log1.term_at(j) == log0.term_at(j), log1.cmd_at(j) == log0.cmd_at(j))),
+                  'C06+C09+C01:O6.4.kept-suffix-unchanged')
     else:
         ctx.prove(log_same(old.get('raftLog'), log1), 'C06+C09:O6.4.journal-untouched-without-success')
     ctx.prove(Implies(state != 0, len(calls) == 0) if calls else True, 'C09:O9.1.no-new-dump-while-one-is-pending')
@@ -256,6 +262,7 @@ def try_log_compaction(ctx):
         ctx.prove(And(cb[so.U], *[Iff(cb[i], vb[i]) for i in range(so.U)]), 'C09+C10+C18:O9.1.cluster-is-voters-plus-self')
     for n, b in field_unchanged(old, so, ['raftCommitIndex', 'raftLastApplied', 'raftCurrentTerm', 'otherNodes']):
         ctx.prove(b, 'C09+C04:O9.1.frame.%s' % n)
+    ctx.prove(And(a0 >= to_z3(log1.first), a0 <= log1.last_idx()), 'C09+C06+C01:I2.applied-within-journal-kept-by-compaction')
 
 
 def _mut_swap_entries(fn):
